@@ -40,6 +40,7 @@ type Obligation struct {
 	RawOut   string
 	File     string
 	Obs      []obsTerm
+	noSplit  bool
 }
 
 type Ctx struct {
